@@ -15,8 +15,8 @@ class Prop:
     drivers = ["loop"]
     technique = ("Lean 4 invariant proofs over a thread-indexed transition system of EventLoop's task queue (any number of "
                  "threads, programs with unbounded nesting, all schedules; no poll timeout in the model, so promptness is a "
-                 "safety property) + T1 extraction of the wake guard, the inline test, the swap, the final drain and the "
-                 "statement order of loop() + T3: the real EventLoop under a deterministic scheduler compared event by event "
+                 "safety property) + T1 extraction of the wake guard, the inline test, the swap, the shape of the drain after "
+                 "the `while` (none | once | until the queue is empty) and the statement order of loop() + T3: the real EventLoop under a deterministic scheduler compared event by event "
                  "with the model under the same interleaving + independent trace oracle (exactly once, order, thread, "
                  "inline-first, lost wake-up evaluated at every instant the loop is in poll)")
     level_text = ("Kernel-checked theorems for all programs, thread counts and schedules of the model: appendOrder = executed ++ "
@@ -25,7 +25,12 @@ class Prop:
                   "call ahead of everything queued; whenever the loop is in poll with a functor queued the eventfd is readable "
                   "or a submitter stands between its append and its wakeup() (no lost wake-up, including submissions from I/O "
                   "handlers, from inside a drain and before loop()); a loop asleep with work queued is never all-blocked; when "
-                  "loop() returns everything queued before the first quit() has run. The guards and the code shape the model "
+                  "loop() has returned, every functor appended before its last test of the queue — by a foreign thread, by the "
+                  "loop thread itself from a functor of the final drain, before or after quit() — has been started, in order "
+                  "(executed = the first retMark appends; what is still queued was appended later by another thread); negation "
+                  "witnesses for the earlier shapes of the code (one drain / no drain after the `while`: a functor is stranded); "
+                  "explicit limitation: a functor that always re-queues itself keeps loop() from returning after quit() "
+                  "(witness theorem). The guards and the code shape the model "
                   "uses are re-extracted from /repo on every run; the hand-written rest is tied to the real EventLoop by "
                   "schedule-controlled differential runs")
     level_note = ("Trusted: Lean kernel (axioms propext, Classical.choice, Quot.sound only), vlib/extract.py + vlib/gen/loop.py, "
@@ -37,7 +42,8 @@ class Prop:
             "from a foreign thread, a task, before loop(), twice, or never; EventLoopThread programs (startLoop, submissions, "
             "destroy). Schedules: directed (`follow`: which thread performs the next visible event; random walks with "
             "stickiness 0.3..0.9), raw detsched schedules (preemption density 5..60 %), directed sweeps placing a submission / "
-            "a quit after every number of loop-thread steps, and — thorough tier — every schedule of three small programs "
+            "a quit after every number of loop-thread steps (also against a chain of functors that queue one another from inside "
+            "the drain after the `while`), and — thorough tier — every schedule of four small programs "
             "within 2..3 preemptions. A case counts as non-trivial when at least two threads acted or a submission context "
             "other than the plain foreign one occurred; distinct = distinct implementation logs.")
     trusted_base = [
@@ -52,7 +58,10 @@ class Prop:
     assumptions = [
         "poll() returns when a registered descriptor is readable (C09 is the property about the pollers)",
         "task bodies terminate; loop() is called once per EventLoop (the model does not re-enter loop())",
-        "a functor queued after the final drain of a loop that was told to quit is not run (the loop no longer runs)",
+        "a functor appended after the loop's last test of the queue (`while (queueSize() > 0)` found it empty) is not run: "
+        "the loop no longer runs",
+        "termination of loop() after quit() needs the functors to stop queueing further functors eventually (generated "
+        "task bodies only submit higher-numbered tasks); the theorems speak about states in which loop() has returned",
     ]
     partial_theorems = []
 
